@@ -638,6 +638,32 @@ def opaque_parse(im: Impl, name: str, window: bytes):
         return ("EXC", type(e).__name__)
 
 
+def f32_roundtrips(tok) -> bool:
+    """False for F32 bit patterns CPython does not reproduce (signalling NaNs are quieted on unpack; see TRUSTED)"""
+    if tok[0] == "T":
+        return all(f32_roundtrips(t) for t in tok[1])
+    if tok[0] == "B" and len(tok[1]) == 4:
+        return struct.pack("<f", struct.unpack("<f", tok[1])[0]) == tok[1]
+    return True
+
+
+def opaque_roundtrips(im: Impl, name: str, window: bytes) -> bool:
+    """does the real sub-reader re-serialise what it parsed from this window to the same bytes?"""
+    se = im.se
+    spec = im.specs[name]
+    st, v = opaque_parse(im, name, window)
+    if st != "OK":
+        return False
+    try:
+        if isinstance(spec, se.CStr):
+            return v.encode("utf8") == window
+        w = se.BufferWriter("<")
+        w.write(spec._spec if isinstance(spec, se.TypedBytesBase) else spec, v)
+        return bytes(w.buffer) == window
+    except Exception:
+        return False
+
+
 def tok_matches(im: Impl, name: str, tok, real):
     """does the model's value for field `name` denote the implementation's value `real`?  -> (bool, attributable)"""
     kind = tok[0]
@@ -727,9 +753,10 @@ def model_vs_impl(im: Impl, p: bytes, mf: str, mdw: str):
             elif mq != q:
                 # the model writes windows back verbatim; the implementation re-serialises the parsed value, which
                 # is the same bytes exactly when the sub-template round-trips on that window (assumed, not C13's)
-                if mq == p and q != p:
-                    pass
-                else:
+                parsed = parse_model_line(md, True)
+                d = parsed[1] if parsed else {}
+                if all(opaque_roundtrips(im, k, t[-1]) for k, t in d.items() if t[0] in ("X", "L")) and \
+                        all(f32_roundtrips(t) for t in d.values()):
                     out.append({"op": "reencode", "payload": p.hex(), "model": mq.hex(), "impl": q.hex()})
         elif mw.strip() == "WERR" and oke:
             out.append({"op": "reencode", "payload": p.hex(), "model": "WERR", "impl": q.hex()})
